@@ -105,6 +105,7 @@ func knownBoundOf(c *Compiler, v ssa.Value) uint64 {
 // the memory's slot in the module context: in place for a local memory, through the pointer to the
 // exporter's memory instance for an imported one. Values recorded earlier (zero extensions, constants,
 // loads) stay recorded.
+//@ prop C02 C14
 // At call sites the two helpers are used through these assumed contracts: the returned length is recorded
 // as THE memory length, and nothing recorded earlier is disturbed - which is what the case contracts below
 // prove of the real code (`earlier-values-stay-recorded`, `no-bounds-check-involved`), stated there with
@@ -122,7 +123,8 @@ func knownBoundOf(c *Compiler, v ssa.Value) uint64 {
 //@ case from-the-memory-slot (c *Compiler) getMemoryLenValue(forceReload bool) ssa.Value
 //@   requires c.ssaBuilder != nil
 //@   ensures[imported-memory-length-through-the-exporters-instance] forceReload && !c.memoryShared && c.offset.LocalMemoryBegin < 0 ==> ssa.IsLoaded(r0) && ssa.LoadedAt(r0) == memoryInstanceBufSizeOffset && ssa.IsLoaded(ssa.LoadedFrom(r0)) && ssa.LoadedFrom(ssa.LoadedFrom(r0)) == c.moduleCtxPtrValue && ssa.LoadedAt(ssa.LoadedFrom(r0)) == uint64(c.offset.ImportedMemoryBegin.U32())
-//@   ensures[local-memory-length-in-place] forceReload && !c.memoryShared && c.offset.LocalMemoryBegin >= 0 ==> gg("lastOp") == int(ssa.OpcodeUload32) && gg("lastV") == int(c.moduleCtxPtrValue) && uint32(gg("lastU1")) == c.offset.LocalMemoryLen().U32() && gg("lastRet") == int(r0)
+//@   ensures[local-memory-length-in-place] forceReload && !c.memoryShared && c.offset.LocalMemoryBegin >= 0 ==> gg("lastV") == int(c.moduleCtxPtrValue) && uint32(gg("lastU1")) == c.offset.LocalMemoryLen().U32() && gg("lastRet") == int(r0)
+//@   ensures[local-memory-length-read-in-full] forceReload && !c.memoryShared && c.offset.LocalMemoryBegin >= 0 ==> gg("lastOp") == int(ssa.OpcodeLoad) && gg("lastTyp") == int(ssa.TypeI64)
 //@   ensures[earlier-values-stay-recorded] verif_ghost_map_kept("M:uext32", "M:uext32") && verif_ghost_map_kept("M:uext32", "M:uextArg") && verif_ghost_map_kept("M:isConst", "M:isConst") && verif_ghost_map_kept("M:isConst", "M:constVal") && verif_ghost_map_kept("M:isLd", "M:isLd") && verif_ghost_map_kept("M:isLd", "M:ldPtr") && verif_ghost_map_kept("M:isLd", "M:ldOff")
 //@   ensures[no-bounds-check-involved] oobChecks() == old(oobChecks())
 //@   modifies ghost("*")
@@ -137,6 +139,7 @@ func knownBoundOf(c *Compiler, v ssa.Value) uint64 {
 //@   modifies ghost("*")
 //@   nosafety keep-pre
 
+//@ prop C02
 //@ func (c *Compiler) memOpSetup(baseAddr ssa.Value, constOffset, operationSizeInBytes uint64) (address ssa.Value)
 //@   requires c.ssaBuilder != nil && constOffset < 1<<33 && operationSizeInBytes <= 16
 //@   ensures[checked-unless-known-safe] oobChecks() == old(oobChecks()) + 1 || (oobChecks() == old(oobChecks()) && old(knownBoundOf(c, baseAddr)) >= constOffset+operationSizeInBytes)
